@@ -153,6 +153,7 @@ static void classify(const Cfg &c, Ctx &ctx)
     if (c.ln == SIZE0 || c.ncols == 0) { ctx.cls("cfg:no-op(size0/ncols0)"); nt = true; }
     if (c.ln == 0) { ctx.cls("cfg:n=1"); nt = true; }
     if (c.nphase > 8 || c.nblock > 8) { ctx.cls("cfg:clamped-huge-nphase/nblock"); nt = true; }
+    if (c.ncols >= 64) { ctx.cls("cfg:wide-matrix(ncols>=64)"); nt = true; }
     if (c.kind == K_EXT) {
         if (c.le > c.ln) { ctx.cls("ext:N_ext>N"); nt = true; } else ctx.cls("ext:N_ext==N");
         if (eff_phase(c.nphase, c.le) % 2 == 0) { ctx.cls("ext:even-effective-phase-count"); nt = true; }
@@ -232,6 +233,8 @@ static rc::Gen<std::vector<uint64_t>> gen_call(int kindsel /* -1 any of 0..4, el
         uint64_t ncols = (uint64_t)*rc::gen::weightedOneOf<int>({{8, g::irange(1, maxcols)}, {1, rc::gen::just(0)}});
         if (kind == K_EXT && ncols == 0) ncols = 1;
         if (ln > 10 && ncols > 4) ncols = 1 + ncols % 4;
+        // now and then a WIDE matrix on a small domain (row temporaries, per-row copies and block splitting depend on the column count)
+        if (ln <= 4 && *g::irange(0, 19) == 0) ncols = *rc::gen::elementOf(std::vector<uint64_t>{64, 65, 255, 1024, 1025, 1100});
         uint64_t nphase = *rc::gen::weightedOneOf<uint64_t>({{6, rc::gen::elementOf(std::vector<uint64_t>(PHASES, PHASES + 12))}, {1, g::range(0, 20)}, {1, g::uni64()}});
         uint64_t nblock = *rc::gen::weightedOneOf<uint64_t>({{6, rc::gen::elementOf(std::vector<uint64_t>(BLOCKS, BLOCKS + 9))}, {1, g::range(0, 14)}, {1, g::uni64()}});
         int dst = *g::irange(0, 2);
